@@ -59,6 +59,7 @@ def getBytes : MP → R (Option Bytes)
   | .raw bs => .ok (some bs)
   | .nil => .ok none
   | .arr _ => .exotic
+  | .map _ => .exotic
   | _ => .err
 
 def getBool : MP → R Bool
@@ -87,12 +88,20 @@ def getKey : MP → R Bytes
   | .arr _ => .exotic
   | _ => .err
 
-def foldPairsR {σ} (f : σ → Bytes → MP → R σ) : σ → List (MP × MP) → R σ
+/-- a struct field name: the library indexes the first byte of the key, an empty key
+is a (recovered) runtime error -/
+def getFieldKey : MP → R Bytes
+  | .raw [] => .err
+  | .raw bs => .ok bs
+  | .arr _ => .exotic
+  | _ => .err
+
+def foldPairsR {σ} (key : MP → R Bytes) (f : σ → Bytes → MP → R σ) : σ → List (MP × MP) → R σ
   | s, [] => .ok s
-  | s, (k, v) :: r => (getKey k).bind fun key => (f s key v).bind fun s' => foldPairsR f s' r
+  | s, (k, v) :: r => (key k).bind fun kb => (f s kb v).bind fun s' => foldPairsR key f s' r
 
 def getStrMap {β} (val : MP → R β) : MP → R (Option (List (Bytes × β)))
-  | .map kvs => (foldPairsR (fun m k v => (val v).map (minsert m k)) [] kvs).map some
+  | .map kvs => (foldPairsR getKey (fun m k v => (val v).map (minsert m k)) [] kvs).map some
   | .nil => .ok none
   | .arr _ => .exotic
   | .raw _ => .exotic
@@ -100,7 +109,7 @@ def getStrMap {β} (val : MP → R β) : MP → R (Option (List (Bytes × β)))
 
 /-- a Go struct: map → fields by name; nil → zero value -/
 def getStruct {σ} (zero : σ) (setField : σ → Bytes → MP → R σ) : MP → R σ
-  | .map kvs => foldPairsR setField zero kvs
+  | .map kvs => foldPairsR getFieldKey setField zero kvs
   | .nil => .ok zero
   | .arr _ => .exotic
   | _ => .err
